@@ -68,6 +68,8 @@ type TxMeta struct {
 	Note     string
 	Data     interface{}
 	Issuer   *types.Address // check issuer for redeem
+	Check    *IssuedCheck   // the check a redeem op presents
+	ProofOK  bool           // redeem: proof made with the check's password for the sender's own address
 	Code     uint32         // result code of this delivery (filled after DeliverTx)
 	FirstCode uint32        // for redeliveries: result code of the first delivery of these bytes
 	OrigKind string         // for redeliveries: kind of the original transaction
@@ -787,6 +789,8 @@ func (v *View) Resolve(op Op) *TxMeta {
 			proofFor = v.acct(op.x(1) + 1) // proof made for somebody else
 		}
 		op.G = 0
+		m.Check = ic
+		m.ProofOK = pass == ic.Pass && proofFor == sender && !ic.LockBad
 		m.Issuer = &Acct(ic.Issuer).Addr
 		typ, data = transaction.TypeRedeemCheck, transaction.RedeemCheckData{RawCheck: ic.Raw, Proof: MakeProof(pass, proofFor)}
 		m.GasCoin = ic.GasCoin
